@@ -173,8 +173,9 @@ def run_job(job):
                     stats["client_invalid_login"] += 1
                 # (6) nothing completes the server side
                 if k % 6 == 0:
-                    offers = [bytes(sz.nh), b"\xff" * sz.nh, bytes(rnd.randrange(256) for _ in range(sz.nh)), bx(r.state)[:sz.nh], bx(r.state)[sz.nh:2 * sz.nh],
-                              bx(r.state)[2 * sz.nh:]]
+                    ht = bx(r.state)[sz.nh:2 * sz.nh]      # Hash(preamble || server_mac): computable from public data alone
+                    offers = [bytes(sz.nh), b"\xff" * sz.nh, bytes(rnd.randrange(256) for _ in range(sz.nh)), bx(r.state)[:sz.nh], ht, bx(r.state)[2 * sz.nh:],
+                              m.H.hmac(ht, ht), m.H.hmac(bytes(sz.nh), ht), m.H.hmac(ht, b""), m.H.hmac(fr[-sz.nh:], ht), m.H.digest(ht)]
                     for fin in offers:
                         s.de("cfin", fin, out="f.f")
                         sf = s.cmd("slogin_finish", state="f.sl", fin="f.f")
